@@ -299,11 +299,32 @@ pub fn preprocess_str<T: AsRef<Path>, U: AsRef<Path>, V: BuildHasher>(
         match n.clone() {
             NodeEvent::Enter(RefNode::SourceDescriptionNotDirective(x)) => {
                 let locate: Locate = x.try_into().unwrap();
-                if let Some(last_include_line) = last_include_line {
-                    if last_include_line == locate.line {
+                let text = locate.str(s);
+                // The rule applies to the line of the first non-blank character.
+                if !text.trim().is_empty() {
+                    let blank = &text[..text.len() - text.trim_start().len()];
+                    let line = locate.line + blank.matches('\n').count() as u32;
+                    if last_include_line == Some(line) {
                         return Err(Error::IncludeLine);
                     }
                 }
+            }
+            NodeEvent::Enter(RefNode::SourceDescription(SourceDescription::StringLiteral(x))) => {
+                let (locate, _) = x.nodes;
+                if last_include_line == Some(locate.line) {
+                    return Err(Error::IncludeLine);
+                }
+                let line = locate.line + locate.str(s).matches('\n').count() as u32;
+                last_item_line = Some(line);
+            }
+            NodeEvent::Enter(RefNode::SourceDescription(SourceDescription::EscapedIdentifier(
+                x,
+            ))) => {
+                let (locate, _) = x.nodes;
+                if last_include_line == Some(locate.line) {
+                    return Err(Error::IncludeLine);
+                }
+                last_item_line = Some(locate.line);
             }
             NodeEvent::Enter(RefNode::CompilerDirective(x)) => {
                 let locate: Locate = x.try_into().unwrap();
@@ -316,8 +337,10 @@ pub fn preprocess_str<T: AsRef<Path>, U: AsRef<Path>, V: BuildHasher>(
             NodeEvent::Leave(RefNode::SourceDescriptionNotDirective(x)) => {
                 let locate: Locate = x.try_into().unwrap();
                 // If the item is whitespace, last_item_line should not be updated
-                if !locate.str(s).trim().is_empty() {
-                    last_item_line = Some(locate.line);
+                let text = locate.str(s).trim_end();
+                if !text.is_empty() {
+                    // line of the last non-blank character
+                    last_item_line = Some(locate.line + text.matches('\n').count() as u32);
                 }
             }
             NodeEvent::Leave(RefNode::CompilerDirective(x)) => {
